@@ -31,7 +31,7 @@ def run(tier, seed, replay=None):
     if not build_stage(rep):
         return rep.finish()
     cases = load_replay_case(replay) if replay else at_cases() + timedcheck.op_cases(OPS, tier, rng) + pool_cases(tier)
-    res = correspond(rep, "C07", cases, "C07 (relay_ok / passthru_ok on the timed model; remaining for the _at forms)")
+    res = correspond(rep, "C07", cases, "C07 (relay_ok, relay_complete / passthru_ok on the timed model; remaining for the _at forms)")
     xcheck.cross_check(rep, "C07", cases, res, 40 if tier == "quick" else 400)
     if not replay:
         real_timer_cases(rep, "C07_never_early (the model's assumption about new_timer; delay / delay_subscription on the real timer)")
